@@ -122,13 +122,13 @@ func TestVerifC19_sum_agg(t *testing.T) {
 	r := verifmc.Start(t, "C19", "sum_agg")
 	defer r.Finish()
 	plan := verifc19.AggPlan{
-		Insts:       []prio.Inst{c19Sum(1), c19Sum(2), c19Sum(3), c19Sum(6), c19Sum(7), c19Sum(255), c19Sum(1 << 32), c19Sum(1<<63 - 1)},
-		FullShares:  []int{2, 3},
-		LightShares: []int{4, 8, 9, 255},
-		MaxBatch:    r.Pick(3, 4),
-		RTMaxBatch:  2,
-		Seeds:       r.Pick(3, 5),
-		DomainLimit: 8,
+		Insts:         []prio.Inst{c19Sum(1), c19Sum(2), c19Sum(3), c19Sum(6), c19Sum(7), c19Sum(255), c19Sum(1 << 32), c19Sum(1<<63 - 1)},
+		FullShares:    []int{2, 3},
+		LightShares:   []int{4, 8, 9, 255},
+		MaxBatch:      r.Pick(3, 4),
+		RTMaxBatch:    2,
+		Seeds:         r.Pick(3, 5),
+		DomainLimit:   8,
 		SweepInsts:    []prio.Inst{c19Sum(2), c19Sum(3)},
 		HistoryInsts:  []prio.Inst{c19Sum(2), c19Sum(1000)},
 		HistoryShares: []int{2, 3},
@@ -141,6 +141,7 @@ func TestVerifC19_sum_agg(t *testing.T) {
 }
 
 func TestVerifC19_sum_invalid(t *testing.T) {
+	verifc19.SkipNarrow(t)
 	r := verifmc.Start(t, "C19", "sum_invalid")
 	defer r.Finish()
 	plan := verifc19.InvalidPlan{
